@@ -68,7 +68,7 @@ def int_width(ty):
 # callees that return (a view of) their receiver: elided in terms
 TRANSPARENT = {
     "std::clone::Clone::clone", "std::borrow::ToOwned::to_owned", "std::convert::AsRef::as_ref",
-    "core::str::<impl str>::as_bytes", "std::string::String::as_bytes", "std::ops::Deref::deref",
+    "core::str::<impl str>::as_bytes", "core::str::as_bytes", "std::string::String::as_bytes", "std::ops::Deref::deref",
     "std::string::String::as_str", "std::vec::Vec::as_slice", "std::convert::Into::into",
     "std::borrow::Borrow::borrow", "std::ops::DerefMut::deref_mut", "std::hint::must_use",
     "std::convert::From::from", "std::sync::Arc::as_ref",
@@ -329,6 +329,8 @@ class FnView:
             if fmt is not None:
                 return fmt
             name = cname(n)
+            if name in ("std::vec::Vec::len", "alloc::vec::Vec::len"):
+                name = "core::slice::len"          # a Vec's length is its slice's length
             args = [T(a) for a in call_args(n)]
             if name in TRANSPARENT and len(args) >= 1:
                 return args[0]
